@@ -11,6 +11,7 @@ import (
 	"encoding/base64"
 	"fmt"
 	"math/big"
+	"sync"
 
 	"github.com/ethereum/go-ethereum/common"
 	"github.com/ethereum/go-ethereum/crypto"
@@ -42,6 +43,16 @@ type Universe struct {
 	Addrs   []common.Address
 	ValKeys [][2][]byte // two validator keys per participant (for key changes)
 	Gammas  []*shcrypto.Gammas
+}
+
+// ValKey is the validator key participant s announces with check-in variant a:
+// 0 and 1 are its own two keys, 2 is the first key of participant 0 (a key
+// shared between keypers).
+func (u *Universe) ValKey(s, a int) []byte {
+	if a == 2 {
+		return u.ValKeys[0][0]
+	}
+	return u.ValKeys[s][a]
 }
 
 // NewUniverse creates n participants.
@@ -190,7 +201,7 @@ func (w *World) Message(a *app.ShutterApp, op Op) *shmsg.Message {
 		}
 		return shmsg.NewBatchConfig(c.Act, u.AddrsOf(c.Members), c.Threshold, uint64(idx))
 	case "checkin":
-		return shmsg.NewCheckIn(u.ValKeys[op.Sender][op.A], ecies.ImportECDSAPublic(&u.Keys[op.Sender].PublicKey))
+		return shmsg.NewCheckIn(u.ValKey(op.Sender, op.A), ecies.ImportECDSAPublic(&u.Keys[op.Sender].PublicKey))
 	case "seen":
 		return shmsg.NewBlockSeen(w.SeenBlocks[op.A])
 	case "result":
@@ -273,7 +284,10 @@ func (w *World) chain() string {
 	return ChainID
 }
 
-var txCache = map[string][]byte{}
+var (
+	txCache   = map[string][]byte{}
+	txCacheMu sync.Mutex
+)
 
 // SignTx wraps, signs and encodes a message. Signing is deterministic
 // (RFC 6979), so results are cached by content.
@@ -284,14 +298,19 @@ func SignTx(m *shmsg.Message, chainID string, nonce uint64, key *ecdsa.PrivateKe
 		panic(err)
 	}
 	ck := string(key.D.Bytes()) + "|" + string(mb)
-	if tx, ok := txCache[ck]; ok {
+	txCacheMu.Lock()
+	tx, ok := txCache[ck]
+	txCacheMu.Unlock()
+	if ok {
 		return tx
 	}
 	signed, err := shmsg.SignMessage(mw, key)
 	if err != nil {
 		panic(err)
 	}
-	tx := []byte(base64.RawURLEncoding.EncodeToString(signed))
+	tx = []byte(base64.RawURLEncoding.EncodeToString(signed))
+	txCacheMu.Lock()
+	defer txCacheMu.Unlock()
 	if len(txCache) > 200000 {
 		txCache = map[string][]byte{}
 	}
